@@ -351,10 +351,7 @@ impl Display for WeekDayRange {
             }
             Self::Holiday { kind, offset } => {
                 write!(f, "{kind}")?;
-
-                if *offset != 0 {
-                    write!(f, " {offset}")?;
-                }
+                write_days_offset(f, *offset)?;
             }
         }
 
